@@ -166,7 +166,7 @@ def judge_gcp(out, x, g, lb, ub, mats, B, xcp, c, where, tags):
 # ---------------------------------------------------------------------------
 # synthetic inputs
 # ---------------------------------------------------------------------------
-def make_memory(rng, n, npairs, convex=True, unit_theta=False, scale=1.0, idle=None, xunit=1.0):
+def make_memory(rng, n, npairs, convex=True, unit_theta=False, scale=1.0, idle=None, xunit=1.0, eps_update=None):
     """Real LBFGSB_MATRICES built by the package from accepted pairs; returns (mats, B_dense) or None.
     unit_theta: the newest pair lies in a unit-curvature plane (y == s exactly), so theta == 1.0 with a non-empty memory."""
     from collections import deque
@@ -185,6 +185,9 @@ def make_memory(rng, n, npairs, convex=True, unit_theta=False, scale=1.0, idle=N
     else:
         unit_theta = False
         A = gen.rand_spd(rng, n, float(np.exp(rng.uniform(0, np.log(1e3)))))
+        if eps_update is not None:
+            # a memory built under a demanding curvature threshold (the user's eps_SY): curvatures between 0.3 and 1.2, so that s.y > eps*y.y holds
+            A = gen.rand_spd(rng, n, 4.0) * 0.3
     if not convex and not unit_theta:
         A = A - 0.3 * np.eye(n)
     if scale != 1.0 and not unit_theta:
@@ -213,7 +216,8 @@ def make_memory(rng, n, npairs, convex=True, unit_theta=False, scale=1.0, idle=N
             if idle is not None and len(idle):
                 step[idle] = 0.0
             x = x + step
-        mats = update_lbfgs_matrices(x.copy(), A @ x, X, G, max(npairs, 1), mats, False)
+        mats = update_lbfgs_matrices(x.copy(), A @ x, X, G, max(npairs, 1), mats, False) if eps_update is None else \
+            update_lbfgs_matrices(x.copy(), A @ x, X, G, max(npairs, 1), mats, False, float(eps_update))
     S = [X[i + 1] - X[i] for i in range(len(X) - 1)]
     Y = [G[i + 1] - G[i] for i in range(len(G) - 1)]
     if not S:
